@@ -325,13 +325,16 @@ func runOpInner(c Case) (opResult, error) {
 		if !ok || len(cp.Nodes) == 0 {
 			return res, fmt.Errorf("no critical path")
 		}
-	case "walk-fail":
+	case "walk-fail", "walk-fail-partial":
 		g, nodes, err := targetGraph(s, 0)
 		if err != nil {
 			return res, err
 		}
 		for _, n := range nodes {
-			n.Select()
+			// partial: only the failing root is part of the build, everything above it is an unselected region
+			if c.Op == "walk-fail" || n.GetLabel().Name == "root" {
+				n.Select()
+			}
 		}
 		calls := 0
 		w := dag.NewWalker(g, func(ctx context.Context, n model.BuildNode) (dag.CacheResult, error) {
@@ -494,7 +497,7 @@ func run(c Case) (pbt.Result, error) {
 }
 
 var counterOps = []string{"select", "descendants", "ancestors"}
-var timedOps = []string{"buildgraph", "buildgraph-pair", "buildgraph-pair", "criticalpath", "walk-fail", "walk-ok", "findcycle", "findcycle-back", "subgraph"}
+var timedOps = []string{"buildgraph", "buildgraph-pair", "buildgraph-pair", "criticalpath", "walk-fail", "walk-fail-partial", "walk-ok", "findcycle", "findcycle-back", "subgraph"}
 
 func TestScaling(t *testing.T) {
 	thorough := testingTier() == "thorough"
